@@ -23,6 +23,53 @@ pub fn random_cfg() -> Cfg {
     c
 }
 
+/// replace every random(e) by the literal 1 (control experiment)
+fn strip_random(b: &mut [crate::model::Stmt]) {
+    use crate::model::*;
+    fn ex(e: &mut Expr) {
+        match e {
+            Expr::Random(_) => *e = Expr::lit(1),
+            Expr::Lit(..) | Expr::Var(_) => {}
+            Expr::Un(_, a) | Expr::Group(a) => ex(a),
+            Expr::Bin(_, a, b) | Expr::SignExt(a, b) => {
+                ex(a);
+                ex(b)
+            }
+            Expr::Ite(a, b, c) => {
+                ex(a);
+                ex(b);
+                ex(c)
+            }
+        }
+    }
+    fn entries(es: &mut [Entry]) {
+        for en in es {
+            if let Entry::Paren(e) | Entry::Bits(_, e) = en {
+                ex(e)
+            }
+        }
+    }
+    for s in b {
+        match s {
+            Stmt::Let(_, e) | Stmt::Declare(_, e) => ex(e),
+            Stmt::Row(_, es) => entries(es),
+            Stmt::Repeat(bound, _, es) => {
+                ex(bound);
+                entries(es)
+            }
+            Stmt::Loop(_, bound, inner) => {
+                ex(bound);
+                strip_random(inner)
+            }
+            Stmt::While(c, inner) => {
+                ex(c);
+                strip_random(inner)
+            }
+            Stmt::ResetRandom => {}
+        }
+    }
+}
+
 impl Property for C17 {
     fn id(&self) -> &'static str {
         "C17"
@@ -120,8 +167,30 @@ impl Property for C17 {
             }
         }
         if let Some((k, m)) = trace_diff(&t, &real, Projection::ALL) {
+            // "behaves exactly as if the drawn values had been written as literals": a row that
+            // differs from the reference is this property's only if random is what makes it
+            // differ. Control experiment: the same program with every random(e) replaced by
+            // the literal 1. If the crate also disagrees with the reference there, the
+            // divergence has nothing to do with random (some other property's business).
+            if !k.starts_with("panic:") {
+                let mut p2 = built.prog.clone();
+                strip_random(&mut p2.stmts);
+                let text2 = crate::print::canonical(&p2).text;
+                let t2 = ri::run(&p2, &built.sigs, &spec, &ri::RiOpts { row_cap: 300, ..Default::default() });
+                let control_ok = match load(&text2, &built.sigs) {
+                    Ok(tc2) => {
+                        let real2 = run_real(&tc2, &built.sigs, &spec, &RunOpts { max_next: 301, seed: Some(seed), ..Default::default() });
+                        trace_diff(&t2, &real2, Projection::ALL).is_none()
+                    }
+                    Err(_) => false,
+                };
+                if !control_ok {
+                    out.class("divergence-not-caused-by-random");
+                    return out;
+                }
+            }
             let key = if k.starts_with("panic:") { k } else { format!("c17:{k}") };
-            out.fail(key, m);
+            out.fail(key, format!("{m}\n(the same program with every random(e) replaced by 1 agrees with the reference)"));
             return out;
         }
         // the log must be consumed exactly when both runs went to the end
